@@ -3,6 +3,7 @@ package props
 import (
 	"bytes"
 	"fmt"
+	"math"
 	"math/rand"
 	"sort"
 	"strings"
@@ -17,13 +18,14 @@ func init() { RegisterSub("C06", "synthetic", RunC06) }
 
 // synthetic page: nil values = null page; bounds may be widened (as truncation does)
 type c06Page struct {
+	nan      bool // double kind: a page of NaN values only (its bounds are NaN, it holds no probe)
 	null     bool
 	vals     []int // ranks (ints) of the values in the page
 	min, max int   // recorded bounds (min <= all vals <= max)
 }
 
 type c06Case struct {
-	kind  string // int32 | bytes
+	kind  string // int32 | bytes | double
 	pages []c06Page
 }
 
@@ -33,6 +35,8 @@ func (c c06Case) canon() string {
 	for _, p := range c.pages {
 		if p.null {
 			sb.WriteString(" n")
+		} else if p.nan {
+			sb.WriteString(" nan")
 		} else {
 			fmt.Fprintf(&sb, " %d:%d%v", p.min, p.max, p.vals)
 		}
@@ -47,12 +51,18 @@ func c06Value(kind string, r int) parquet.Value {
 	if kind == "int32" {
 		return parquet.Int32Value(int32(r))
 	}
+	if kind == "double" {
+		return parquet.DoubleValue(float64(r))
+	}
 	return parquet.ByteArrayValue(rankBytes(r))
 }
 
 func c06Unrank(kind string, v parquet.Value) int {
 	if kind == "int32" {
 		return int(v.Int32())
+	}
+	if kind == "double" {
+		return int(v.Double())
 	}
 	b := v.ByteArray()
 	return (int(b[0])<<4 | int(b[1])>>4) - 64
@@ -62,15 +72,20 @@ func c06Unrank(kind string, v parquet.Value) int {
 func c06Index(c c06Case) (parquet.ColumnIndex, parquet.Type) {
 	var typ parquet.Type
 	var kind parquet.Kind
-	if c.kind == "int32" {
+	switch c.kind {
+	case "int32":
 		typ, kind = parquet.Int32Type, parquet.Int32
-	} else {
+	case "double":
+		typ, kind = parquet.DoubleType, parquet.Double
+	default:
 		typ, kind = parquet.ByteArrayType, parquet.ByteArray
 	}
 	ix := typ.NewColumnIndexer(16)
 	for _, p := range c.pages {
 		if p.null {
 			ix.IndexPage(3, 3, parquet.Value{}, parquet.Value{})
+		} else if p.nan {
+			ix.IndexPage(2, 0, parquet.DoubleValue(math.NaN()), parquet.DoubleValue(math.Float64frombits(0xfff8000000000001)))
 		} else {
 			ix.IndexPage(int64(len(p.vals)), 0, c06Value(c.kind, p.min), c06Value(c.kind, p.max))
 		}
@@ -92,9 +107,10 @@ func c06Index(c c06Case) (parquet.ColumnIndex, parquet.Type) {
 func c06Check(ctx *core.Ctx, c c06Case, probes []int, reqs *[]string, pend *[]func(string)) {
 	index, typ := c06Index(c)
 	n := index.NumPages()
-	hasNull := false
+	hasNull, hasNaN := false, false
 	for _, p := range c.pages {
 		hasNull = hasNull || p.null
+		hasNaN = hasNaN || p.nan
 	}
 	nontrivial := len(c.pages) >= 2
 	ctx.Case(c.canon(), nontrivial)
@@ -113,10 +129,15 @@ func c06Check(ctx *core.Ctx, c c06Case, probes []int, reqs *[]string, pend *[]fu
 	} else {
 		ctx.Hist("nullpages", "none")
 	}
+	if c.kind == "double" {
+		ctx.Hist("nan-pages", fmt.Sprint(hasNaN))
+	}
 	var mins, maxs []string
 	for _, p := range c.pages {
 		if p.null {
 			mins, maxs = append(mins, "n"), append(maxs, "n")
+		} else if p.nan {
+			mins, maxs = append(mins, "nan"), append(maxs, "nan")
 		} else {
 			mins, maxs = append(mins, fmt.Sprint(p.min)), append(maxs, fmt.Sprint(p.max))
 		}
@@ -141,7 +162,9 @@ func c06Check(ctx *core.Ctx, c c06Case, probes []int, reqs *[]string, pend *[]fu
 		first := -1       // first page that contains v as a value
 		anyBound := false // some page's recorded bounds contain v
 		for i, p := range c.pages {
-			if p.null {
+			if p.null || p.nan {
+				// a NaN page holds no probe; its NaN bounds exclude nothing under Compare, so Find may or may not
+				// stop there: it counts neither as a candidate nor as a wrong answer
 				continue
 			}
 			if p.min <= v && v <= p.max {
@@ -157,13 +180,16 @@ func c06Check(ctx *core.Ctx, c c06Case, probes []int, reqs *[]string, pend *[]fu
 			}
 		}
 		sig := fmt.Sprintf("order=%d nullpages=%v", order, hasNull) + nfTag
+		if hasNaN {
+			sig += " nan-page"
+		}
 		detail := map[string]any{"case": c.canon(), "probe": v, "nulls_first": nullsFirst, "returned": got, "numPages": n, "first_page_with_value": first}
 		switch {
 		case got < 0 || got > n:
 			ctx.Fail("L1", "out-of-range "+sig, "Search returned an index outside 0..NumPages", detail)
 		case first >= 0 && got > first:
 			ctx.Fail("L1", "missed-page "+sig, fmt.Sprintf("value occurs in page %d but Search returned %d (NumPages=%d)", first, got, n), detail)
-		case got < n && (c.pages[got].null || v < c.pages[got].min || v > c.pages[got].max):
+		case got < n && !c.pages[got].nan && (c.pages[got].null || v < c.pages[got].min || v > c.pages[got].max):
 			ctx.Fail("L1", "bounds-exclude "+sig, "Search returned a page whose bounds do not contain the value", detail)
 		case got == n && anyBound:
 			ctx.Fail("L1", "numpages-but-candidate "+sig, "Search returned NumPages although a page's bounds contain the value", detail)
@@ -179,10 +205,14 @@ func c06Check(ctx *core.Ctx, c c06Case, probes []int, reqs *[]string, pend *[]fu
 			asc = "1"
 		}
 		zero := 0
-		if c.kind != "int32" {
+		if c.kind == "bytes" {
 			zero = -1000 // null pages store the empty byte string, which sorts before every value
 		}
-		*reqs = append(*reqs, fmt.Sprintf("find.nf %s %s %d %s %s %d", nfArg, asc, zero, ms, xs, v))
+		op := "find.nf"
+		if c.kind == "double" {
+			op = "find.f" // bounds may be NaN: the mirror over float bounds
+		}
+		*reqs = append(*reqs, fmt.Sprintf("%s %s %s %d %s %s %d", op, nfArg, asc, zero, ms, xs, v))
 		*pend = append(*pend, func(ans string) {
 			want := fmt.Sprintf("ok %d %d", got, order)
 			if ans != want {
@@ -224,7 +254,11 @@ func c06Flush(ctx *core.Ctx, d interface {
 }
 
 func c06RandCase(r *rand.Rand) c06Case {
-	c := c06Case{kind: []string{"int32", "bytes"}[r.Intn(2)]}
+	c := c06Case{kind: []string{"int32", "bytes", "double"}[r.Intn(3)]}
+	nanP := 0
+	if c.kind == "double" {
+		nanP = []int{0, 6, 3}[r.Intn(3)]
+	}
 	np := r.Intn(7)
 	if r.Intn(10) == 0 {
 		np = 7 + r.Intn(30)
@@ -234,6 +268,10 @@ func c06RandCase(r *rand.Rand) c06Case {
 	for i := 0; i < np; i++ {
 		if r.Intn(4) == 0 {
 			c.pages = append(c.pages, c06Page{null: true})
+			continue
+		}
+		if nanP > 0 && r.Intn(nanP) == 0 {
+			c.pages = append(c.pages, c06Page{nan: true})
 			continue
 		}
 		var lo int
@@ -266,7 +304,7 @@ func c06RandCase(r *rand.Rand) c06Case {
 }
 
 func RunC06(ctx *core.Ctx) {
-	ctx.SetRule("synthetic column indexes built through the exported ColumnIndexer (int32 and byte-array kinds, null pages anywhere, exact or widened bounds, ascending/descending/random/constant layouts) x every probe in the value domain; exhaustive small scope; distinct by canonical index text, non-trivial = at least 2 pages")
+	ctx.SetRule("synthetic column indexes built through the exported ColumnIndexer (int32, byte-array and double kinds, null pages anywhere, all-NaN pages for double, exact or widened bounds, ascending/descending/random/constant layouts) x every probe in the value domain; exhaustive small scope; distinct by canonical index text, non-trivial = at least 2 pages")
 	d := ctx.Driver()
 	var reqs []string
 	var pend []func(string)
@@ -313,6 +351,31 @@ func RunC06(ctx *core.Ctx) {
 		}
 	}
 	rec(nil, 0)
+	c06Flush(ctx, d, &reqs, &pend)
+	// the same for DOUBLE with all-NaN pages among the shapes (3-value domain)
+	var fshapes []c06Page
+	fshapes = append(fshapes, c06Page{null: true}, c06Page{nan: true})
+	for a := 0; a < 3; a++ {
+		for b := a; b < 3; b++ {
+			fshapes = append(fshapes, c06Page{vals: []int{a, b}, min: a, max: b})
+		}
+	}
+	fmax := ctx.Scale(3, 5)
+	var frec func(prefix []c06Page, depth int)
+	frec = func(prefix []c06Page, depth int) {
+		c := c06Case{kind: "double", pages: append([]c06Page(nil), prefix...)}
+		c06Check(ctx, c, []int{-1, 0, 1, 2, 3}, &reqs, &pend)
+		if len(reqs) > 20000 {
+			c06Flush(ctx, d, &reqs, &pend)
+		}
+		if depth == fmax {
+			return
+		}
+		for _, s := range fshapes {
+			frec(append(prefix, s), depth+1)
+		}
+	}
+	frec(nil, 0)
 	c06Flush(ctx, d, &reqs, &pend)
 	// random, larger
 	r := ctx.Rand("c06")
